@@ -1,6 +1,7 @@
 package main
 
 import (
+	"sync/atomic"
 	"bytes"
 	"context"
 	"encoding/json"
@@ -103,6 +104,7 @@ func withWatchdog(f func() string) string {
 	case s := <-done:
 		return s
 	case <-time.After(5 * time.Second):
+		atomic.AddInt32(&hangs, 1)
 		return "hang"
 	}
 }
@@ -314,7 +316,7 @@ func c18Resp(rng *RNG) string {
 		add("Content-Range", pick(rng, []string{"bytes 1-2/10", "bytes 1-2/", "bytes 1-2", "", "bytes */x", "bytes 1-2/-5", "1-2/99999999999999999999"}))
 	}
 	if rng.Chance(1, 3) {
-		add("Content-Length", pick(rng, []string{"0", "5", "3", "100000", "1"}))
+		add("Content-Length", pick(rng, []string{"0", "5", "3", "100000", "1", "131071", "131072", "131073", "200000"})) // the client buffers manifests below 128 KiB
 	}
 	if rng.Chance(1, 6) {
 		add("X-Unknown-Length", "1")
@@ -372,6 +374,26 @@ func (*c18) Gen(rng *RNG, tier string) []Case {
 				cases = append(cases, Case{Tag: "directed-resume", Lines: []string{line}})
 				line = fmt.Sprintf("cl 0 PushBlobChunked 4 202 x %s %s %s 201 x 0", hdr, ok202, ok202)
 				cases = append(cases, Case{Tag: "directed-start", Lines: []string{line}})
+			}
+		}
+	}
+	// directed: a manifest too large to buffer and without a digest header makes the client ask again
+	// with HEAD; every answer to that second request
+	for _, op := range []string{"GetTag", "GetManifest", "GetBlob"} {
+		for _, cl := range []string{"131071", "131072", "131073", "200000"} {
+			for _, ct := range []string{"application/vnd.oci.image.manifest.v1+json", ""} {
+				get := fmt.Sprintf("200 %s 2 %s %s %s %s", tok("{}"), tok("Content-Length"), tok(cl), tok("Content-Type"), tok(ct))
+				for _, head := range []string{
+					"200 x 0",
+					fmt.Sprintf("200 x 1 %s %s", tok("Content-Length"), tok(cl)),
+					fmt.Sprintf("200 x 2 %s %s %s %s", tok("Content-Length"), tok(cl), tok("Docker-Content-Digest"), tok("sha256:e3b0c44298fc1c149afbf4c8996fb92427ae41e4649b934ca495991b7852b855")),
+					fmt.Sprintf("200 x 2 %s %s %s %s", tok("Content-Length"), tok(cl), tok("Docker-Content-Digest"), tok("bogus")),
+					fmt.Sprintf("200 x 2 %s %s %s %s", tok("Content-Length"), tok(cl), tok("Docker-Content-Digest"), tok("")),
+					fmt.Sprintf("200 x 1 %s %s", tok("Docker-Content-Digest"), tok("sha256:"+strings.Repeat("0", 64))),
+					"404 x 0", "500 " + tok("not json") + " 0", "0 x 0", "204 x 0",
+				} {
+					cases = append(cases, Case{Tag: "directed-head-fallback", Lines: []string{fmt.Sprintf("cl 0 %s 2 %s %s", op, get, head)}})
+				}
 			}
 		}
 	}
